@@ -630,6 +630,17 @@ func c03NamesAndLists() []string {
 			}
 		}
 	}
+	// a name that is a scalar or a function used as the array of a parenthesised "in"
+	for _, n := range []string{"x", "NR", "f", "ARGV"} {
+		out = append(out, "BEGIN { "+n+" = 1\n  if ((1, 2) in "+n+") z }\n", "function "+n+"() { }\n\nBEGIN { if ((1,\n2) in "+n+") z }\n", "function g(p) { p = 1; return (1, 2) in p }\nBEGIN { g("+n+") }\n",
+			"BEGIN { if ((1, 2) in "+n+") z; "+n+" = 1 }\n")
+	}
+	// regex literals holding bytes that are not UTF-8, with and without metacharacters
+	for _, b := range []string{"\x80", "\xe9", "\xff", "\xc3", "\xf0\x9f", "caf\xe9", "\xc3\xa9"} {
+		for _, t := range []string{"/X/", "/aXb/ { print }", "$1 ~ /X+/", "BEGIN { if (x ~ /X/) y }", "/[X]/", "/X|b/", "BEGIN { n = gsub(/X/, \"-\") }", "BEGIN { split(s, a, /X/) }", "!/X/", "/X/, /b/"} {
+			out = append(out, strings.ReplaceAll(t, "X", b)+"\n")
+		}
+	}
 	stmts := []string{"(1,2)", "x = (1,2)", "f((1,2))", "print (1,2)(3)", "print (1,2) > \"f\"", "print (1,2), 3", "printf (\"%s\", 1)", "getline (1,2)", "((1,2))", "for ((1,2);;) ;", "for (;(1,2);) ;", "(1,2) in a",
 		"return (1,2)", "x[(1,2)] = 1", "$(1,2) = 1", "if ((1,2)) x", "while ((1,2)) x", "do x; while ((1,2))", "delete a[(1,2)]", "exit (1,2)", "x = 1 + (1,2)", "x = (1,2) in a in b", "print > (1,2)", "(1,2) | getline",
 		"\"c\" | getline (1,2)", "x = y ? (1,2) : 3", "f(1, (2,3), 4)", "x = !(1,2)", "x = -(1,\n\n2)", "print (1,2) (3,4)", "print ((1,2), 3)"}
